@@ -352,6 +352,10 @@ def power_divergence(X, Y, Z, data, boolean=True, lambda_="cressie-read", **kwar
     else:
         raise (f"Z must be an iterable. Got object type: {type(Z)}")
 
+    # The spelling used in this docstring; scipy spells it "freeman-tukey".
+    if lambda_ == "freeman-tuckey":
+        lambda_ = "freeman-tukey"
+
     if (X in Z) or (Y in Z):
         raise ValueError(
             f"The variables X or Y can't be in Z. Found {X if X in Z else Y} in Z."
